@@ -1,5 +1,4 @@
-import Snowflake.Generated.Funcs
-import Snowflake.Generated.Skeleton
+import Snowflake.Generated.NameMatcher
 import Snowflake.Model.NameMatcher
 import Snowflake.Base.Skel
 /-!
@@ -8,31 +7,31 @@ relay-URL condition of `proxy/lib.runSession` equal the model; the broker's `Pro
 performs the pattern check (and returns) before the poll is registered.
 -/
 namespace Snowflake.Tie.NameMatcher
-open Snowflake.NameMatcher Snowflake.Gen
+open Snowflake.NameMatcher
 
-def toModel (m : Funcs.NameMatcher) : Matcher := ⟨m.exact, m.suffix⟩
+def toModel (m : Gen.NameMatcher.NameMatcher) : Matcher := ⟨m.exact, m.suffix⟩
 
-theorem new_tie (rule : List UInt8) : toModel (Funcs.namematcher_NewNameMatcher rule) = new rule := rfl
+theorem new_tie (rule : List UInt8) : toModel (Gen.NameMatcher.NewNameMatcher rule) = new rule := rfl
 
-theorem isValidRule_tie (rule : List UInt8) : Funcs.namematcher_IsValidRule rule = isValidRule rule := rfl
+theorem isValidRule_tie (rule : List UInt8) : Gen.NameMatcher.IsValidRule rule = isValidRule rule := rfl
 
-theorem isSupersetOf_tie (m o : Funcs.NameMatcher) :
-    Funcs.namematcher_IsSupersetOf m o = isSupersetOf (toModel m) (toModel o) := rfl
+theorem isSupersetOf_tie (m o : Gen.NameMatcher.NameMatcher) :
+    Gen.NameMatcher.IsSupersetOf m o = isSupersetOf (toModel m) (toModel o) := rfl
 
-theorem isMember_tie (m : Funcs.NameMatcher) (s : List UInt8) :
-    Funcs.namematcher_IsMember m s = isMember (toModel m) s := rfl
+theorem isMember_tie (m : Gen.NameMatcher.NameMatcher) (s : List UInt8) :
+    Gen.NameMatcher.IsMember m s = isMember (toModel m) s := rfl
 
 theorem proxyRejects_tie (relayURL : List UInt8) (member allow : Bool) (scheme : List UInt8) :
-    Funcs.proxy_runSession_rejectCond relayURL member allow scheme = proxyRejects relayURL member allow scheme := rfl
+    Gen.NameMatcher.runSession_rejectCond relayURL member allow scheme = proxyRejects relayURL member allow scheme := rfl
 
 /-- Ordering facts of `IPC.ProxyPolls` the model relies on: the pattern check happens exactly once,
 strictly before the (single) `RequestOffer`, and the block guarded by the failed check ends in
 `return` without registering the poll. -/
 theorem proxyPolls_check_precedes_offer :
-    Skel.before Skeleton.broker_ProxyPolls (Skel.pre "if !i.ctx.CheckProxyRelayPattern(relayPattern, !relayPatternSupported){")
+    Skel.before Gen.NameMatcher.skel_ProxyPolls (Skel.pre "if !i.ctx.CheckProxyRelayPattern(relayPattern, !relayPatternSupported){")
         (Skel.pre "call i.ctx.RequestOffer(") = true
-    ∧ Skel.count Skeleton.broker_ProxyPolls (Skel.pre "call i.ctx.RequestOffer(") = 1
-    ∧ ((Skel.blockOf Skeleton.broker_ProxyPolls (Skel.pre "if !i.ctx.CheckProxyRelayPattern(")).map
+    ∧ Skel.count Gen.NameMatcher.skel_ProxyPolls (Skel.pre "call i.ctx.RequestOffer(") = 1
+    ∧ ((Skel.blockOf Gen.NameMatcher.skel_ProxyPolls (Skel.pre "if !i.ctx.CheckProxyRelayPattern(")).map
           (fun b => b.getLast? == some "return" && !b.any (Skel.pre "call i.ctx.RequestOffer("))) = some true := by
   decide +kernel
 
